@@ -6,7 +6,7 @@
    stated through the exact rational it rounds. *)
 From Coq Require Import ZArith Bool List QArith.
 From Coq Require Import Strings.String Strings.Ascii.
-From YV Require Import Common.Corr Model.DateTime Lemmas.DateTimeLaws Lemmas.DateTimeCivil Lemmas.DateTimeFields Gen.DateTimeDecls.
+From YV Require Import Common.Corr Model.DateTime Lemmas.DateTimeLaws Lemmas.DateTimeCivil Lemmas.DateTimeFields Lemmas.DateTimeSpans Gen.DateTimeDecls.
 Import ListNotations.
 Open Scope Z_scope.
 
@@ -164,6 +164,83 @@ Theorem C20_date_time_split : forall d,
   wall (dt_date d) mod US_DAY = 0 /\ off (dt_date d) = off d.
 Proof. exact date_time_split. Qed.
 
+(* ---- timespan algebra ------------------------------------------------------------ *)
+(* timespan * integer is exact in either order; (t * k) / k = t: dividing a multiple by the
+   integer k <> 0 admits exactly one result, t (for |t| < 2^50 us, where the float quotient
+   the code goes through is exact); division by zero is ZeroDivisionError *)
+Theorem C20_timespan_scale : forall t k,
+  (eval (OpTsMul t (NInt k)) = mk_ts (t * k) /\ eval (OpTsMulR (NInt k) t) = mk_ts (t * k) /\
+   eval (OpTsOp TMulInt t k) = mk_ts (t * k)) /\
+  (k <> 0 -> Z.abs t < 1125899906842624 ->
+   exists n d, eval (OpTsDiv (t * k) (NInt k)) = VTsNear n d /\ (forall r, ts_near r n d = true <-> r = t)) /\
+  (eval (OpTsDiv t (NInt 0)) = VErr ZeroDiv /\ forall d, eval (OpTsDiv t (NFloat 0 d)) = VErr ZeroDiv).
+Proof. exact (fun t k => conj (scale_by_integer t k) (conj (scale_then_divide t k) (divide_by_zero t))). Qed.
+
+(* scaling by any number: n * t = t * n; the result is the timespan nearest the exact rational
+   t * n resp. t / n (window: half a microsecond + 2^-51 relative) or a range error *)
+Theorem C20_timespan_scale_rational : forall t x,
+  eval (OpTsMulR x t) = eval (OpTsMul t x) /\
+  (forall n d v, x = NFloat n d -> eval (OpTsMul t x) = v -> v = VErr RangeErr \/ v = VTsNear (t * n) d) /\
+  (forall n d, eval (OpTsDiv t x) = VTsNear n d ->
+     match x with
+     | NInt k => k <> 0 /\ (n # d == (t # 1) / (k # 1))%Q
+     | NFloat fn fd => fn <> 0 /\ (n # d == (t # 1) / (fn # fd))%Q
+     end).
+Proof.
+  exact (fun t x => conj (scale_commutes t x)
+          (conj (fun n d v E => match eq_sym E in _ = x' return eval (OpTsMul t x') = v -> _ with
+                                | eq_refl => scale_by_float t n d v end)
+                (divide_by_number t x))).
+Qed.
+
+(* timespan / timespan is the ratio of the microsecond counts; (t * k) / t = k *)
+Theorem C20_timespan_ratio : forall a b,
+  (b <> 0 -> exists n d, eval (OpTsOp TDivTs a b) = VRat n d /\ ((n # d) * (b # 1) == (a # 1))%Q) /\
+  (a <> 0 -> exists n d, eval (OpTsOp TDivTs (a * b) a) = VRat n d /\ (n # d == b # 1)%Q) /\
+  eval (OpTsOp TDivTs a 0) = VErr ZeroDiv.
+Proof. exact (fun a b => conj (ratio a b) (conj (ratio_of_multiple a b) (ratio_by_zero a))). Qed.
+
+(* ordering of timespans is that of the microsecond counts: a total order, invariant under adding
+   a timespan and under scaling by a positive integer, and the order of the instants reached from
+   any datetime; unary minus is the additive inverse and d - t = d + (-t) *)
+Theorem C20_timespan_order : forall c a b,
+  (eval (OpTsCmp c a b) = VBool (z_cmp c a b) /\
+   (forall x, z_cmp c (a + x) (b + x) = z_cmp c a b) /\
+   (forall k, 0 < k -> z_cmp c (a * k) (b * k) = z_cmp c a b) /\
+   (forall d, dt_cmp c (dt_add d a) (dt_add d b) = z_cmp c a b)) /\
+  ((z_cmp Lt a b = true /\ z_cmp Eq a b = false /\ z_cmp Gt a b = false \/
+    z_cmp Lt a b = false /\ z_cmp Eq a b = true /\ z_cmp Gt a b = false \/
+    z_cmp Lt a b = false /\ z_cmp Eq a b = false /\ z_cmp Gt a b = true) /\
+   z_cmp Le a b = (z_cmp Lt a b || z_cmp Eq a b) /\ z_cmp Ge a b = (z_cmp Gt a b || z_cmp Eq a b) /\
+   z_cmp Ne a b = negb (z_cmp Eq a b) /\ z_cmp Gt a b = z_cmp Lt b a /\ z_cmp Ge a b = z_cmp Le b a /\
+   (z_cmp Eq a b = true <-> a = b) /\ (z_cmp Lt a b = true <-> a < b)) /\
+  (eval (OpTsOp TNeg a b) = mk_ts (- a) /\ eval (OpTsOp TPos a b) = VTs a /\ - - a = a /\ a + - a = 0 /\
+   (forall d, dt_add (dt_add d a) (- a) = d /\ dt_sub_ts d a = dt_add d (- a))).
+Proof. exact (fun c a b => conj (span_order c a b) (conj (span_order_total a b) (negation a b))). Qed.
+
+(* replace(offset => o) keeps the wall reading and moves the instant by the offset difference;
+   replace(fields...) is datetime(...) of the replaced and the kept fields *)
+Theorem C20_replace : forall h ry rm rd rh rmi rs rus ro,
+  (valid_hdt h = true ->
+   exists x, eval (OpReplace h None None None None None None None ro) = VDt x /\
+     wall x = wall (conv h) /\ off x = keep ro (off (conv h)) /\
+     instant x = instant (conv h) - (keep ro (off (conv h)) - off (conv h))) /\
+  (let w := wall (conv h) in
+   eval (OpReplace h ry rm rd rh rmi rs rus ro) =
+   eval (OpBuild (keep ry (dt_field FYear w)) (keep rm (dt_field FMonth w)) (keep rd (dt_field FDay w))
+                 (keep rh (dt_field FHour w)) (keep rmi (dt_field FMinute w)) (keep rs (dt_field FSecond w))
+                 (keep rus (dt_field FMicrosecond w)) (keep ro (off (conv h))))).
+Proof. exact (fun h ry rm rd rh rmi rs rus ro => conj (replace_offset h ro) (replace_fields h ry rm rd rh rmi rs rus ro)). Qed.
+
+(* d.date + d.time = d, d - d.date = d.time, d.date is midnight of the same day and in range *)
+Theorem C20_date_plus_time : forall h, valid_hdt h = true ->
+  eval (OpDate h) = VDt (dt_date (conv h)) /\ eval (OpTime h) = VTs (dt_time (conv h)) /\
+  eval (OpAdd (Aware (dt_date (conv h))) (dt_time (conv h))) = VDt (conv h) /\
+  eval (OpDiff h (Aware (dt_date (conv h)))) = VTs (dt_time (conv h)) /\
+  eval (OpField FHour (Aware (dt_date (conv h)))) = VInt 0 /\
+  in_range (wall (dt_date (conv h))) = true.
+Proof. exact date_plus_time. Qed.
+
 (* what "float result rounds this rational" means in the correspondence check *)
 Theorem C20_float_tolerance : forall fn fd n d, float_close fn fd n d = true ->
   (Qabs.Qabs ((fn # fd) - (n # d)) * inject_Z 2251799813685248 <= Qabs.Qabs (n # d))%Q.
@@ -237,3 +314,7 @@ Print Assumptions C20_civil_roundtrip.
 Print Assumptions C20_fields_determine_reading.
 Print Assumptions C20_civil_inverse.
 Print Assumptions C20_fields_roundtrip.
+Print Assumptions C20_timespan_scale.
+Print Assumptions C20_timespan_order.
+Print Assumptions C20_replace.
+Print Assumptions C20_date_plus_time.
